@@ -127,7 +127,8 @@ def run_tree(rec, tier, seed, ti, spec, other):
                    ("same-instance-twice", dict(mode="twice-same-instance")), ("new-instance-twice", dict(mode="twice-new-instance")),
                    ("after-failed-run", dict(mode="failed-then-good")),
                    ("relative-roots", dict(mode="relative-roots")), ("dot-root", dict(mode="dot-root")), ("unnormalised-roots", dict(mode="unnormalised-roots")),
-                   ("symlinked-roots", dict(mode="symlinked-roots"))]
+                   ("symlinked-roots", dict(mode="symlinked-roots")),
+                   ("twice-with-clean-between", dict(mode="twice-with-clean-between"))]
         if have_moved:
             configs.append(("other-tree-first", dict(mode="other-tree-first")))
             configs.append(("same-instance-edited", dict(mode="same-instance-edited")))
